@@ -1202,8 +1202,55 @@ def r109(facts, res):
     res.floor(R, 'strings assembled in parse_string', n, 1)
 
 
+# ---------------------------------------------------------------------------------------------------------------------
+# R10.10 a quoted token ends at its own kind of quote
+def r1010(facts, res):
+    """'..' and ".." are two spellings of a token; each ends at the quote character it began with, so that the other one may occur
+    inside it ("don't").  In the token regex no character class mixes the two quote characters: a class such as ["'] used as a
+    delimiter lets a token that began with one kind end at the other."""
+    R = 'R10.10'
+    import progress
+    P = progress.Progress(facts, ['cfgrammar'])
+    n = 0
+    for st in sorted(facts.statics):
+        if not st.startswith('cfgrammar::yacc::parser::RE_'):
+            continue
+        pat = P.regex_of_static(st)
+        if pat is None or ('"' not in pat and "'" not in pat):
+            continue
+        n += 1
+        key = 'quote-classes:' + st.rsplit('::', 1)[-1]
+        bad = None
+        i = 0
+        while i < len(pat):
+            if pat[i] == '\\':
+                i += 2
+                continue
+            if pat[i] == '[':
+                j = i + 1
+                if j < len(pat) and pat[j] == '^':
+                    j += 1
+                if j < len(pat) and pat[j] == ']':
+                    j += 1
+                while j < len(pat) and pat[j] != ']':
+                    j += 2 if pat[j] == '\\' else 1
+                cls = pat[i:j + 1]
+                if '"' in cls and "'" in cls and not cls.startswith('[^'):
+                    bad = cls
+                i = j + 1
+                continue
+            i += 1
+        if bad:
+            res.bad(R, key, '', 'the character class %s in `%s` accepts either quote character where one particular quote is meant: a token that began with one '
+                    'kind of quote ends at the first quote of the other kind (\\"don\'t\\" is cut after `don`)' % (bad, pat))
+        else:
+            res.ok(R, key, '', 'no character class of `%s` mixes the two quote characters' % pat[:70])
+    res.floor(R, 'token regexes with quote characters', n, 1)
+
+
 def run(facts, res):
     r107(facts, res)
+    r1010(facts, res)
     r109(facts, res)
     r108(facts, res)
     r105(facts, res)
